@@ -5,3 +5,5 @@ cd "$(dirname "$(readlink -f "$0")")/harness"
 export CARGO_NET_OFFLINE=true
 cargo build --release
 cargo build --profile strict -p vtotal --bin c20
+# seed corpora for the coverage-guided targets (used by the thorough tiers)
+../fuzz/make_seeds.sh >/dev/null && ./target/release/mkseeds
